@@ -59,8 +59,10 @@ def main():
         'level_note': ('Trusted base: Python ast; the rule tables and spec '
                        'functions in sa/rules/%s.py written from the property '
                        'statement; may-raise approximation of the CFG (calls, '
-                       'subscripts, yields, %% formatting). ' % pid.lower() +
-                       getattr(mod, 'LEVEL_NOTE', '')),
+                       'subscripts, yields, %% formatting). A property can '
+                       'still be broken through code no rule is anchored in '
+                       '(measured by seed rounds 5 and 6, DESIGN.md 9.7c/d). '
+                       % pid.lower() + getattr(mod, 'LEVEL_NOTE', '')),
     })
   manifest = {
       'version': 1,
@@ -95,7 +97,7 @@ def main():
                 'rule is an ANALYSIS-ERROR (exit 2), never a silent pass. Known '
                 'findings are in known_findings.json; fixed defects are '
                 'recorded there with their fix: commits. The thorough tier adds '
-                'the self-validation of the checker (hand variants, 200 kept '
+                'the self-validation of the checker (hand variants, 218 kept '
                 'seeded changes, 309 kept behaviour-preserving refactorings, '
                 'mutation and equivalence sweeps). See DESIGN.md for what each '
                 'rule decides and its blind spots.'),
